@@ -15,14 +15,16 @@ import (
 
 // Directive is one directive line with its intended (unquoted) values.
 type Directive struct {
-	Verb     string
-	Args     []string // logical arguments, see per-verb layout below
-	Indirect bool     // require only
-	Before   []string // whole-line comment texts (without the slashes), in order
-	Suffix   string   // end-of-line comment text; for require lines the part after "indirect;" if Indirect
-	Blank    bool     // a blank line precedes this line (inside blocks) or this statement (top level)
-	Quote    []bool   // per argument: force double quotes
-	ID       int      // identity of the line, for the comment-survival checks
+	Verb       string
+	Args       []string // logical arguments, see per-verb layout below
+	Indirect   bool     // require only
+	Before     []string // whole-line comment texts (without the slashes), in order
+	Suffix     string   // end-of-line comment text; for require lines the part after "indirect;" if Indirect
+	Blank      bool     // a blank line precedes this line (inside blocks) or this statement (top level)
+	BlankAfter bool     // inside blocks: a blank line between the leading comments and the line
+	Marker     int      // spelling of the indirect marker (0 = canonical "// indirect" / "// indirect; text")
+	Quote      []bool   // per argument: force double quotes
+	ID         int      // identity of the line, for the comment-survival checks
 }
 
 // Layout of Args:
@@ -45,6 +47,7 @@ type Stmt struct {
 	Before       []string    // block only: whole-line comments before the block
 	LParenSuffix string      // block only: comment after "("
 	RParenBefore []string    // block only: comments before ")"
+	RParenBlank  bool        // block only: a blank line before ")" (and before its comments)
 	RParenSuffix string      // block only: comment after ")"
 	Blank        bool
 	Interval     []bool // retract: per line, render as [low, high] even when equal
@@ -69,8 +72,8 @@ type ModPool struct {
 }
 
 var Mods = []ModPool{
-	{"example.com/a", []string{"v1.0.0", "v1.2.3", "v0.1.0", "v1.0.0-rc.1", "v2.0.0+incompatible", "v0.0.0-20200101000000-abcdefabcdef"}, []string{"v1", "v1.2", "v1.0.0+meta"}},
-	{"example.com/b", []string{"v1.0.0", "v1.10.0", "v1.9.0", "v0.0.1"}, []string{"v1.9", "v0"}},
+	{"example.com/a", []string{"v1.0.0", "v1.2.3", "v0.1.0", "v1.0.0-rc.1", "v2.0.0+incompatible", "v0.0.0-20200101000000-abcdefabcdef", "v1.2.3+incompatible"}, []string{"v1", "v1.2", "v1.0.0+meta"}},
+	{"example.com/b", []string{"v1.0.0", "v1.10.0", "v1.9.0", "v0.0.1", "v1.10.0+incompatible"}, []string{"v1.9", "v0"}},
 	{"example.com/a/v2", []string{"v2.0.0", "v2.1.0", "v2.0.0-alpha"}, []string{"v2", "v2.1"}},
 	{"gopkg.in/yaml.v2", []string{"v2.4.0", "v2.2.8"}, []string{"v2.4"}},
 	{"gopkg.in/check.v1", []string{"v1.0.0", "v0.0.0-20161208181325-20d25e280405"}, []string{"v1"}},
@@ -92,14 +95,24 @@ var OddMods = []ModPool{
 	{"back`tick", []string{"v1.0.0"}, nil},
 	{"tab\there", []string{"v1.0.0"}, nil},
 	{"=>", []string{"v1.0.0"}, nil},
-	{"nb\u00a0sp", []string{"v1.0.0"}, nil},       // non-ASCII spaces: not printable for the lexer, must stay quoted
+	{"nb\u00a0sp", []string{"v1.0.0"}, nil}, // non-ASCII spaces: not printable for the lexer, must stay quoted
 	{"ideo\u3000graphic", []string{"v1.0.0"}, nil},
 	{"thin\u2009narrow\u202f", []string{"v1.0.0"}, nil},
 	{"zero\u200bwidth", []string{"v1.0.0"}, nil},
 	{"bom\ufeffinside", []string{"v1.0.0"}, nil},
 	{"line\u2028sep", []string{"v1.0.0"}, nil},
 	{"soft\u00adhyphen", []string{"v1.0.0"}, nil},
+	{"back\\slash", []string{"v1.0.0"}, nil}, // backslashes, alone and together with other characters that force quoting
+	{"back\\slash space", []string{"v1.0.0"}, nil},
+	{"b\\s,comma", []string{"v1.0.0"}, nil},
+	{"b\\q\"uote", []string{"v1.0.0"}, nil},
+	{"b\\(paren)", []string{"v1.0.0"}, nil},
+	{"trail\\", []string{"v1.0.0"}, nil},
 }
+
+// WinDirs are directory arguments accepted by the use directive of go.work (replace rejects them on
+// a non-Windows system).
+var WinDirs = []string{"C:\\Users\\gopher\\my mods\\a", ".\\win", ".\\win dir", "..\\up,comma", "D:\\x\\"}
 
 var Dirs = []string{"./nb\u00a0sp", "./ideo\u3000x", "./a", "../b", "/abs/dir", "./x y", ".", "..", "./a/b", "./c", "./d", "C:/dir", "./é"}
 var GoVersions = []string{"1.12", "1.20", "1.21", "1.21.0", "1.22.3", "1.23rc1", "1.9", "1.24", "1.100"}
@@ -107,7 +120,7 @@ var Toolchains = []string{"go1.21.0", "go1.22.3", "default", "go1.23rc1", "go1",
 var GodebugKeys = []string{"panicnil", "http2client", "asynctimerchan", "k1", "default"}
 var GodebugVals = []string{"1", "0", "go1.21", "x", ""}
 var ToolPaths = []string{"example.com/a/cmd/tool", "golang.org/x/tools/cmd/stringer", "example.com/b", "./local/tool", "example.com/c/cmd"}
-var CommentTexts = []string{"note", "keep this", "TODO(x): fix", "Deprecated: use example.com/new instead", "indirect", "a // b", "é日本", "x; y", "indirect; really", "", "see https://example.com/issue/1", "retracted: bad"}
+var CommentTexts = []string{"note", "keep this", "TODO(x): fix", "Deprecated: use example.com/new instead", "indirect", "a // b", "é日本", "x; y", "indirect; really", "", "see https://example.com/issue/1", "retracted: bad", "indirect dependency of x", "indirectly needed"}
 
 func pick[T any](t *rapid.T, l []T, label string) T {
 	return l[rapid.IntRange(0, len(l)-1).Draw(t, label)]
@@ -141,6 +154,10 @@ func (g *genState) comments(d *Directive) {
 			d.Before = append(d.Before, "BB"+strconv.Itoa(d.ID))
 		}
 		d.Suffix = "S" + strconv.Itoa(d.ID)
+		if gen.Chance(g.t, 6, "indirectword") {
+			// ordinary comments that begin like the indirect marker but are not it
+			d.Suffix = pick(g.t, []string{"indirect dependency ", "indirectly ", "indirect;x ", "indirect, ", "Indirect ", "indirect ; "}, "iword") + d.Suffix
+		}
 		return
 	}
 	nb := []int{0, 0, 0, 1, 1, 2}[rapid.IntRange(0, 5).Draw(g.t, "nbefore")]
@@ -196,6 +213,9 @@ func (g *genState) line(verb string) Directive {
 		d.Args = []string{m.Path, g.version(m)}
 		if verb == "require" {
 			d.Indirect = rapid.IntRange(0, 2).Draw(t, "indirect") == 0
+			if d.Indirect && gen.Chance(t, 15, "markerstyle") {
+				d.Marker = 1 + gen.Uniform(t, 4, "marker")
+			}
 		}
 	case "replace":
 		m := g.mod()
@@ -229,13 +249,16 @@ func (g *genState) line(verb string) Directive {
 		d.Args = []string{pick(t, ToolPaths, "tool")}
 	case "use":
 		d.Args = []string{pick(t, Dirs, "usedir")}
+		if g.o.OddPaths && gen.Chance(t, 15, "windir") {
+			d.Args = []string{pick(t, WinDirs, "windir")}
+		}
 	}
 	d.Quote = make([]bool, len(d.Args))
 	for i := range d.Quote {
 		d.Quote[i] = gen.Chance(t, 12, "forcequote")
 	}
 	g.comments(&d)
-	if verb == "require" && strings.HasPrefix(d.Suffix, "indirect") {
+	if verb == "require" && IsIndirectMarker(d.Suffix) {
 		d.Suffix = "note" // would change the meaning of the line
 	}
 	return d
@@ -283,11 +306,13 @@ func Gen(t *rapid.T, o Options) File {
 	}
 	addSingle("go", 75)
 	addSingle("toolchain", 30)
+	// a file made of single-line directives only (no parenthesised block anywhere)
+	flat := gen.Chance(t, 12, "flat")
 	order := []string{"module", "go", "toolchain"}
 	for _, v := range order {
 		if single[v] {
 			s := Stmt{Verb: v, Lines: []Directive{g.line(v)}}
-			if v == "module" && gen.Chance(t, 10, "moduleblock") {
+			if v == "module" && !flat && gen.Chance(t, 10, "moduleblock") {
 				s.Block = true
 			}
 			s.Blank = gen.Chance(t, 50, "stmtblank")
@@ -298,7 +323,7 @@ func Gen(t *rapid.T, o Options) File {
 	for i := 0; i < n; i++ {
 		verb := pick(t, verbs, "verb")
 		s := Stmt{Verb: verb, Blank: gen.Chance(t, 50, "stmtblank")}
-		if rapid.IntRange(0, 2).Draw(t, "isblock") != 0 {
+		if !flat && rapid.IntRange(0, 2).Draw(t, "isblock") != 0 {
 			s.Block = true
 			nl := []int{0, 1, 1, 2, 2, 3, 4, 5}[rapid.IntRange(0, 7).Draw(t, "nlines")]
 			for j := 0; j < nl; j++ {
@@ -322,6 +347,18 @@ func Gen(t *rapid.T, o Options) File {
 				// (retract blocks stay uncommented: collapsing a one-line commented block merges the
 				// block comment into the line's rationale, which legitimately changes the parsed text)
 				s.Before = []string{"BLOCK" + strconv.Itoa(g.nextID)}
+			}
+			if !o.NoComments {
+				// something between the last line and ")": such a block is never collapsed
+				if o.Markers && gen.Chance(t, 10, "rparenmarker") {
+					s.RParenBefore = []string{"RP" + strconv.Itoa(g.nextID)}
+				}
+				s.RParenBlank = gen.Chance(t, 8, "rparenblank")
+				for j := range s.Lines {
+					if len(s.Lines[j].Before) > 0 && gen.Chance(t, 8, "blankafter") {
+						s.Lines[j].BlankAfter = true
+					}
+				}
 			}
 		} else {
 			s.Lines = []Directive{g.line(verb)}
@@ -405,13 +442,32 @@ func (d Directive) Tokens(interval bool) []string {
 	panic("modgen: unknown verb " + d.Verb)
 }
 
+// IsIndirectMarker reports whether an end-of-line comment text is the indirect marker of a require
+// line: the single word "indirect", or "indirect;" followed by more text.
+func IsIndirectMarker(text string) bool {
+	f := strings.Fields(text)
+	return len(f) == 1 && f[0] == "indirect" || len(f) > 1 && f[0] == "indirect;"
+}
+
+// SuffixOf returns the end-of-line comment text given to the line with the given ID.
+func (f File) SuffixOf(id int) string {
+	for _, s := range f.Stmts {
+		for _, d := range s.Lines {
+			if d.ID == id {
+				return d.Suffix
+			}
+		}
+	}
+	return ""
+}
+
 // SuffixComment is the full end-of-line comment of the directive ("" if none).
 func (d Directive) SuffixComment() string {
 	switch {
 	case d.Indirect && d.Suffix != "":
-		return "// indirect; " + d.Suffix
+		return []string{"// indirect; ", "//indirect; ", "//   indirect; ", "// indirect;  ", "//\tindirect;\t"}[d.Marker%5] + d.Suffix
 	case d.Indirect:
-		return "// indirect"
+		return []string{"// indirect", "//indirect", "//  indirect", "//\tindirect", "// indirect"}[d.Marker%5]
 	case d.Suffix != "":
 		return "// " + d.Suffix
 	}
@@ -484,12 +540,18 @@ func (f File) Render() string {
 			for _, c := range d.Before {
 				comment("\t", c)
 			}
+			if d.BlankAfter && len(d.Before) > 0 {
+				lines = append(lines, "")
+			}
 			interval := i < len(s.Interval) && s.Interval[i]
 			l := "\t" + joinTokens(d.Tokens(interval), sep)
 			if sc := d.SuffixComment(); sc != "" {
 				l += sep + sc
 			}
 			lines = append(lines, l)
+		}
+		if s.RParenBlank && len(s.Lines) > 0 {
+			lines = append(lines, "")
 		}
 		for _, c := range s.RParenBefore {
 			comment("\t", c)
